@@ -25,7 +25,7 @@ def run(tier, seed):
     samples = []
     for field, deg in COMBOS:
         stride = {2: 67 if tier == "quick" else 3, 3: 4099 if tier == "quick" else 151}[deg]
-        r = vlib.run_tlc("Gen_Ext", "Gen_Ext_%s_%d" % (field, deg), workers=2, env={"GE_STRIDE": stride}, tag="Gen_Ext_%s_%d" % (field, deg), xmx="4g", timeout=1200)
+        r = vlib.run_tlc("Gen_Ext", "Gen_Ext_%s_%d" % (field, deg), workers=2, env={"GE_STRIDE": stride, "GE_STRIDE2": (deg if tier == "quick" else 1)}, tag="Gen_Ext_%s_%d" % (field, deg), xmx="4g", timeout=1200)
         scns = sorted([p for p in r.printed if "x" in p], key=lambda x: json.dumps(x, sort_keys=True))
         states += r.distinct
         trans += r.generated
